@@ -21,5 +21,14 @@ echo "## demo with change" >> "$log"
 go test -vet=off -count=1 -timeout "$to" -run "$rx" ./"$pkg"/ >> "$log" 2>&1; demo=$?
 rm -f "$pkg"/zz_demo_seed_test.go
 echo "## existing test suite with change" >> "$log"
+if [ -n "${SUITE_TOUCHED:-}" ]; then
+  # time-boxed variant: the whole suite was run by the author of the change (meta.json "existing_tests", suite*.log next to
+  # it when present); here only the packages the patch touches, their in-repo dependants cmd/glyph and pkg/server, are re-run
+  pk=$(git diff --name-only | xargs -n1 dirname | sort -u | sed 's|^|./|'); pk="$pk ./cmd/glyph ./pkg/server"
+  pk=$(echo $pk | tr ' ' '\n' | sort -u | tr '\n' ' ')
+  echo "## (touched packages only: $pk; whole suite: see meta.json existing_tests)" >> "$log"
+  go test -vet=off -count=1 -timeout 25m $pk 2>&1 | grep -v "no test files" | grep -E "^(ok|FAIL|---|panic)" >> "$log"; suite=${PIPESTATUS[0]}
+else
 go test -vet=off -count=1 -timeout 25m ./... 2>&1 | grep -v "no test files" | grep -E "^(ok|FAIL|---|panic)" >> "$log"; suite=${PIPESTATUS[0]}
+fi
 echo "VERDICT $(basename $(dirname $seed))/$(basename $seed): demo_clean_exit=$clean build_exit=$build demo_with_change_exit=$demo suite_exit=$suite" | tee -a "$log"
